@@ -44,13 +44,25 @@ Proof.
 Qed.
 
 Lemma signed_lt_src a b : G.signed_lt_ww a b = signed_lt a b.
-Proof. reflexivity. Qed.
+Proof.
+  unfold G.signed_lt_ww, signed_lt, sign_trick, msb. change (Z.opp 1) with (-1).
+  destruct (match_bitwidth a b true) as [a' b']. reflexivity.
+Qed.
 Lemma signed_le_src a b : G.signed_le_ww a b = signed_le a b.
-Proof. reflexivity. Qed.
+Proof.
+  unfold G.signed_le_ww, signed_le, sign_trick, msb. change (Z.opp 1) with (-1).
+  destruct (match_bitwidth a b true) as [a' b']. reflexivity.
+Qed.
 Lemma signed_gt_src a b : G.signed_gt_ww a b = signed_gt a b.
-Proof. reflexivity. Qed.
+Proof.
+  unfold G.signed_gt_ww, signed_gt, sign_trick, msb. change (Z.opp 1) with (-1).
+  destruct (match_bitwidth a b true) as [a' b']. reflexivity.
+Qed.
 Lemma signed_ge_src a b : G.signed_ge_ww a b = signed_ge a b.
-Proof. reflexivity. Qed.
+Proof.
+  unfold G.signed_ge_ww, signed_ge, sign_trick, msb. change (Z.opp 1) with (-1).
+  destruct (match_bitwidth a b true) as [a' b']. reflexivity.
+Qed.
 
 (* the int-operand paths are the wire path applied to Const(v, signed=True) *)
 Lemma signed_add_int_src a v :
@@ -58,7 +70,11 @@ Lemma signed_add_int_src a v :
   G.signed_add_iw v a = G.signed_add_ww (const_d v None true) a /\
   G.signed_mult_wi a v = G.signed_mult_ww a (const_d v None true) /\
   G.signed_mult_iw v a = G.signed_mult_ww (const_d v None true) a.
-Proof. repeat split; reflexivity. Qed.
+Proof.
+  unfold G.signed_add_wi, G.signed_add_iw, G.signed_add_ww, G.signed_mult_wi, G.signed_mult_iw,
+         G.signed_mult_ww.
+  cbv zeta. repeat split; reflexivity.
+Qed.
 
 Lemma barrel_stage_src fw dir dist st i : G.barrel_stage fw dir dist st i = barrel_stage fw dir dist st i.
 Proof. destruct st as [v app]. reflexivity. Qed.
@@ -132,14 +148,16 @@ Qed.
 Definition barrel_shifter_src (bits bit_in dir dist : sv) : sv :=
   fst (fold_left (G.barrel_stage (wd bits) dir dist) (seq 0 (Z.to_nat (wd dist))) (bits, bit_in)).
 
-Lemma barrel_shifter_src_eq bits bit_in dir dist :
-  barrel_shifter_src bits bit_in dir dist = barrel_shifter bits bit_in dir dist.
+Lemma fold_stage_src fw dir dist l : forall st,
+  fold_left (G.barrel_stage fw dir dist) l st = fold_left (barrel_stage fw dir dist) l st.
 Proof.
-  unfold barrel_shifter_src, barrel_shifter. f_equal.
-  generalize (bits, bit_in). generalize (seq 0 (Z.to_nat (wd dist))).
   induction l as [|i l IH]; intros st; [reflexivity|].
   cbn [fold_left]. rewrite barrel_stage_src. apply IH.
 Qed.
+
+Lemma barrel_shifter_src_eq bits bit_in dir dist :
+  barrel_shifter_src bits bit_in dir dist = barrel_shifter bits bit_in dir dist.
+Proof. unfold barrel_shifter_src, barrel_shifter. rewrite fold_stage_src. reflexivity. Qed.
 
 Lemma src_barrel_full_shift x fw f dir dist : 1 <= fw -> inrange x fw -> wf dist ->
   barrel_shifter_src (x, fw) (b2z f, 1) dir dist =
@@ -168,6 +186,21 @@ Lemma src_shift_int bits k : wf bits -> 1 <= k <= wd bits - 1 ->
 Proof.
   intros Hb Hk. destruct (shift_int_src bits k Hb Hk) as [E1 [E2 [E3 E4]]].
   destruct (const_shifts bits k Hb Hk) as [C1 [C2 [C3 C4]]].
-  rewrite E1 in C1. rewrite E2 in C2. rewrite E3 in C3. rewrite E4 in C4.
-  inversion C1. inversion C2. inversion C3. inversion C4. repeat split; reflexivity.
+  split; [congruence|]. split; [congruence|]. split; congruence.
+Qed.
+
+Lemma src_bodies_are_model a b : wf a -> wf b ->
+  G.signed_add_ww a b = signed_add a b /\ G.signed_mult_ww a b = signed_mult a b /\
+  G.signed_lt_ww a b = signed_lt a b /\ G.signed_le_ww a b = signed_le a b /\
+  G.signed_gt_ww a b = signed_gt a b /\ G.signed_ge_ww a b = signed_ge a b /\
+  G.shift_left_logical_ww a b = shift_left_logical a b /\
+  G.shift_left_arithmetic_ww a b = shift_left_arithmetic a b /\
+  G.shift_right_logical_ww a b = shift_right_logical a b /\
+  G.shift_right_arithmetic_ww a b = shift_right_arithmetic a b.
+Proof.
+  intros Ha Hb. destruct (shift_wire_src a b) as [E1 [E2 [E3 E4]]].
+  split; [apply signed_add_src|]. split; [apply signed_mult_src; destruct Ha, Hb; lia|].
+  split; [apply signed_lt_src|]. split; [apply signed_le_src|].
+  split; [apply signed_gt_src|]. split; [apply signed_ge_src|].
+  split; [exact E1|]. split; [exact E2|]. split; [exact E3|exact E4].
 Qed.
